@@ -667,6 +667,43 @@ func (m *Model) ruleKEYSPACE(r *Results) {
 			}
 		}
 	}
+	// the caller's statement is what produces the result: every return of the function that executes
+	// it which can report success lies behind the execution (an "empty collection, nothing to
+	// match" shortcut decided from bookkeeping answers without asking the store)
+	for _, s := range m.Sites {
+		if s.Holes == 0 || s.IsSchema || s.Method != "Query" || len(s.Variants) == 0 {
+			continue
+		}
+		fn := s.Call.Parent()
+		if fn == nil || fn.Parent() != nil {
+			continue
+		}
+		userSQL := false
+		for _, v := range s.Variants {
+			for _, st := range v.Stmts {
+				if len(st.With) == 1 {
+					userSQL = true
+				}
+			}
+		}
+		if !userSQL {
+			continue
+		}
+		c := newCut()
+		c.cutBlock(s.Call.Block())
+		reach := entryReach(fn, c)
+		bad := ""
+		for _, ret := range returnsOf(fn) {
+			if reach[ret.Block().Index] && ret.Block() != s.Call.Block() && !m.mustBeFailureReturn(ret) {
+				bad = m.instrPos(ret)
+			}
+		}
+		pos := m.instrPos(s.Call)
+		if bad != "" {
+			pos = bad
+		}
+		r.check(bad == "", rule, m.declName(fn)+" / a result is what the statement produced", pos, "every return that can report success is behind the execution of the caller's statement", "a return that can report success is reachable without the caller's statement having been executed: the rows handed back (none) are decided from something other than the documents the statement ranges over")
+	}
 	// the keyspace token is replaced wherever it occurs (a statement may name it more than once:
 	// self-join, sub-select, UNION)
 	for _, f := range m.Funcs {
